@@ -7,11 +7,11 @@ import (
 
 // Placement of a harness-supplied buffer.
 const (
-	PlaceHeap      = iota // ordinary Go heap (make)
-	PlaceCanary           // Go heap, cap followed by a canary zone that must stay intact
-	PlaceGuardEnd         // end of the buffer's capacity flush against a PROT_NONE page
-	PlaceGuardFront       // start of the buffer flush against a PROT_NONE page (preceding page)
-	PlaceReadOnly         // whole buffer in PROT_READ pages, end flush against PROT_NONE
+	PlaceHeap       = iota // ordinary Go heap (make)
+	PlaceCanary            // Go heap, cap followed by a canary zone that must stay intact
+	PlaceGuardEnd          // end of the buffer's capacity flush against a PROT_NONE page
+	PlaceGuardFront        // start of the buffer flush against a PROT_NONE page (preceding page)
+	PlaceReadOnly          // whole buffer in PROT_READ pages, end flush against PROT_NONE
 	NPlace
 )
 
